@@ -186,9 +186,9 @@ var props = map[string]*propCfg{
 		DesignRef:   "DESIGN.md §4 C19",
 	},
 	"C10": {
-		Rule:        "Metamorphic: for each operation instance (Add/Sub/Mul/Quo/FMA/Sqrt/Set/Neg/Abs; operands of 1..200 words so that shifts, Karatsuba scratch, squaring and the in-place quotient interact with reused capacity; occasional +-0/+-Inf operands; precisions 1..1 400) the result on a fresh receiver with distinct variables (value, sign, accuracy, precision, mode, or the panic class) is the reference. It must be reproduced (a) under a random sharing pattern of receiver and operands (5 for binary operations, 15 for FMA, 2 for unary ones; operands sharing a variable are given equal values, operands sharing the receiver fit its precision) with the non-shared operands left bit-identical, and (b) when the receiver is a variable of its own, by two receivers with previous contents drawn from: a longer value, a shorter value, +0, -0, +-Inf, an inexact accuracy, and raw receivers built through the verif export with a larger capacity whose words beyond len are stale (all nines, random, or >= base), an exactly sized buffer, and a zero that still carries the mantissa and an exponent anywhere in int32 of a previous value. Half of the cases run with the scratch pool poisoned. Non-trivial = a non-distinct sharing pattern.",
+		Rule:        "Metamorphic: for each operation instance (Add/Sub/Mul/Quo/FMA/Sqrt/Set/Neg/Abs; operands of 1..200 words so that shifts, Karatsuba scratch, squaring and the in-place quotient interact with reused capacity; occasional +-0/+-Inf operands; precisions 1..1 400) the result on a fresh receiver with distinct variables (value, sign, accuracy, precision, mode, or the panic class) is the reference. It must be reproduced (a) under a random sharing pattern of receiver and operands (5 for binary operations, 15 for FMA, 2 for unary ones; operands sharing a variable are given equal values, operands sharing the receiver fit its precision) with the non-shared operands left bit-identical, and (b) when the receiver is a variable of its own, by two receivers with previous contents drawn from: a longer value, a shorter value, +0, -0, +-Inf, an inexact accuracy, and raw receivers built through the verif export with a larger capacity whose words beyond len are stale (all nines, random, or >= base), an exactly sized buffer, and a zero that still carries the mantissa and an exponent anywhere in int32 of a previous value. Half of the cases run with the scratch pool poisoned. 22% of the cases are setters instead (SetInt64/SetUint64/SetInt/SetRat/SetFloat64/SetFloat/SetString/SetBitsExp/SetInf/GobDecode/UnmarshalText): outcome on a fresh receiver == outcome on two receivers with previous contents. Non-trivial = a non-distinct sharing pattern or a setter case.",
 		Assumptions: []string{"raw receivers are canonical values (or zeros with leftover fields, a state the public API produces): garbage is only placed beyond len(mant)", "results after an (identical) ErrNaN panic are undefined and not compared"},
-		Floors:      []floor{{"shape/FMA/z=u", 50}, {"shape/Add/z=x", 500}, {"shape/Quo/z=y", 500}, {"shape/Mul/z=x=y", 500}, {"shape/Sqrt/z=x", 1000}, {"dirty_receiver_variants", 40000}, {"dirty/raw-large-cap-stale", 4000}, {"dirty/raw-zero-form-stale-mant", 4000}},
+		Floors:      []floor{{"shape/FMA/z=u", 50}, {"shape/Add/z=x", 500}, {"shape/Quo/z=y", 500}, {"shape/Mul/z=x=y", 500}, {"shape/Sqrt/z=x", 1000}, {"dirty_receiver_variants", 40000}, {"setter/", 10000}, {"dirty/raw-large-cap-stale", 4000}, {"dirty/raw-zero-form-stale-mant", 4000}},
 		LevelText:   "Runtime metamorphic monitoring: aliasing shapes and dirty receivers must reproduce the fresh-receiver result; needs no external truth, so it cannot disagree with a correct library.",
 		Technique:   "runtime metamorphic monitoring (aliasing partitions, dirty and raw-stale receivers, poisoned scratch pool)",
 		DesignRef:   "DESIGN.md §4 C10",
